@@ -24,6 +24,7 @@ Variables lower upper : str -> str.
 Variable parse_tree : mapper -> tz -> res (option T * mapper * tz).
 Variable set_label : T -> option str -> T.
 Variable add_comments : T -> list str -> T.
+Variable vl : bool.
 Variable c : nscfg.
 Variable tlf : tl_factory.
 Variable et : bool.
@@ -32,14 +33,14 @@ Hypothesis parse_tree_suf : forall m z ot m' z',
   parse_tree m z = Ok (ot, m', z') -> suf (z_toks z') (z_toks z).
 Hypothesis upper_idem : forall s, upper (upper s) = upper s.
 
-Notation YTS := (y_trees_loop T lower upper parse_tree set_label add_comments c).
-Notation RTS := (r_trees_loop T lower upper parse_tree set_label add_comments c tlf).
-Notation YTB := (y_trees_block T lower upper parse_tree set_label add_comments c et).
-Notation RTB := (r_parse_trees_block T lower upper parse_tree set_label add_comments c tlf et).
-Notation YBL := (y_blocks_loop T lower upper parse_tree set_label add_comments c et).
-Notation RBL := (r_blocks_loop T lower upper parse_tree set_label add_comments c tlf et).
-Notation YST := (y_items_from_stream T lower upper parse_tree set_label add_comments c et).
-Notation RST := (r_parse_nexus_stream T lower upper parse_tree set_label add_comments c tlf et).
+Notation YTS := (y_trees_loop T lower upper parse_tree set_label add_comments vl c).
+Notation RTS := (r_trees_loop T lower upper parse_tree set_label add_comments vl c tlf).
+Notation YTB := (y_trees_block T lower upper parse_tree set_label add_comments vl c et).
+Notation RTB := (r_parse_trees_block T lower upper parse_tree set_label add_comments vl c tlf et).
+Notation YBL := (y_blocks_loop T lower upper parse_tree set_label add_comments vl c et).
+Notation RBL := (r_blocks_loop T lower upper parse_tree set_label add_comments vl c tlf et).
+Notation YST := (y_items_from_stream T lower upper parse_tree set_label add_comments vl c et).
+Notation RST := (r_parse_nexus_stream T lower upper parse_tree set_label add_comments vl c tlf et).
 Notation trel := (trees_rel T tlf).
 
 Lemma ybind_ok_inv : forall X Y (a : yres T X) (f : X -> yres T Y) out y,
@@ -66,7 +67,7 @@ Proof.
   apply zstep_suf in E1; [|apply next_token_ucase_suf]. unfold ksuf in E1.
   destruct (otok_is (z_cur (k_z k1)) K_LINK).
   { rewrite ybind_ylift in H.
-    destruct (parse_link upper (S f) (k_z k1)) as [[lt z2]|e|] eqn:E2; try (inversion H; fail).
+    destruct (parse_link upper vl (S f) (k_z k1)) as [[lt z2]|e|] eqn:E2; try (inversion H; fail).
     apply IH in H. apply parse_link_suf in E2. suf_chain. }
   destruct (otok_is (z_cur (k_z k1)) K_TITLE).
   { rewrite ybind_ylift in H.
@@ -126,7 +127,7 @@ Proof.
     exists tls, reg, None. repeat split; auto. rewrite app_nil_r. reflexivity.
   - rewrite ybind_ylift.
     destruct (zstep (set_z k (cast_ucase upper (k_z k))) (skip_to_semicolon fuel)) as [k1|e|]; cbn [bind]; try (simpl; reflexivity).
-    pose proof (trees_loop_agree T lower upper parse_tree set_label add_comments c tlf fuel k1 g tls reg
+    pose proof (trees_loop_agree T lower upper parse_tree set_label add_comments vl c tlf fuel k1 g tls reg
                   (mkLoc (z_cur (cast_ucase upper (k_z k))) None None None None) None W) as HL.
     destruct (YTS fuel k1 g (mkLoc (z_cur (cast_ucase upper (k_z k))) None None None None)) as [out r].
     simpl fst in HL. simpl snd in HL. unfold ybind.
